@@ -282,7 +282,7 @@ def run_case(case):
         extra_phase = later[0]
     else:
         spec = gen.gen_project(rng, prob={"optional": 0.4, "hold": 0.4, "hold_defines": 0.6, "defines": 0.4})
-        phases = gen.gen_history(rng, spec, nphase=rng.choice([0, 1, 1, 2]))
+        phases = gen.gen_history(rng, spec, nphase=rng.choice([0, 1, 1, 2]), breaks=0.2)
     if not case.get("scenario"):
         # an edit the user may make between the kill and the restart
         more = gen.gen_history(random.Random(case["seed"] + 17), phases[-1]["spec"] if phases else spec, nphase=1)
